@@ -680,6 +680,7 @@ def symbolic_run(contract: Contract, tier="quick", mutate=None, stop_on=None) ->
 
         def run(c: Context):
             I = Interp(calls=dict(contract.calls, **contract.summaries), loops=contract.loops, tag=contract.name)
+            c.pc_slices = bool(getattr(contract, "pc_slices", False))
             vals = {n: s.fresh(n) for n, s in contract.inputs.items()}
             i = Inputs(vals)
             req = contract.requires(i)
